@@ -76,7 +76,7 @@ Proof.
 Qed.
 
 Section Proofs.
-Variables (c : cpu) (x : list N) (i1 i2 : nat) (f : portfinder) (a : nat) (h : list N).
+Variables (c : backend) (x : list N) (i1 i2 : nat) (f : portfinder) (a : nat) (h : list N).
 Hypothesis Hnew : pf_new x i1 i2 = Ok f.
 Hypothesis Hbytes : Forall (fun b => (b < 256)%N) h.
 Hypothesis Hneedle : Forall (fun b => (b < 256)%N) x.
@@ -178,7 +178,7 @@ Qed.
 
 End Proofs.
 
-Theorem pf_prefilter_correct : forall (c : cpu) (x : list N) (i1 i2 : nat) (f : portfinder) (a : nat) (h : list N),
+Theorem pf_prefilter_correct : forall (c : backend) (x : list N) (i1 i2 : nat) (f : portfinder) (a : nat) (h : list N),
   pf_new x i1 i2 = Ok f ->
   Forall (fun b => (b < 256)%N) h -> Forall (fun b => (b < 256)%N) x ->
   satq (load_ok a (length h) 0 0) (pf_find_prefilter c f a h)
